@@ -554,6 +554,15 @@ impl Expr for ComparisonExpr {
                     return search!(MemchrSearcher::new(byte));
                 }
 
+                // verif hook: the SIMD searchers (random anchor, AVX2 intrinsics) are
+                // outside the verifier's reach; under `cargo kani` only the scalar path
+                // is compiled so that this function can be analysed at all.
+                #[cfg(kani)]
+                #[allow(unreachable_code)]
+                {
+                    return search!(MemmemSearcher::new(bytes));
+                }
+
                 #[cfg(any(target_arch = "x86", target_arch = "x86_64"))]
                 if *USE_AVX2 {
                     use rand::{Rng, rng};
